@@ -157,7 +157,7 @@ def run(ck):
                             ck.fail("C11|ranked-front-order|non_dominated_set_ranked",
                                     "a point is chosen although a point dominating it is not", rc, {"chosen": i, "dominator": j})
                 reqs.append({"op": "ranked", "pts": [[rat(v) for v in p] for p in pts], "req": req_n, "orders": rounds})
-                metas.append(("ranked", rc, [bool(b) for b in rmask], None))
+                metas.append(("ranked", rc, [bool(b) for b in rmask], [int(i) for i in ridx] if 0 < req_n < n else None))
         # pareto_efficient column (maximisation: objectives are negated)
         ncol = ck.pick(40, 300)
         for t in range(ncol):
@@ -217,8 +217,12 @@ def run(ck):
             if not rep["spec_mask"]:
                 ck.fail("C11|not-pareto-exact|pareto_efficient-column", "pareto_efficient is not exactly the non-dominated successful rows", case)
         else:
-            if rep["model_mask"] != mask:
-                ck.mismatch(case, {"impl_mask": mask, "model_mask": rep["model_mask"]})
+            if rep["model_mask"] != mask or (idx is not None and rep["model_idx"] != idx):
+                ck.mismatch(case, {"impl_mask": mask, "model_mask": rep["model_mask"], "impl_idx": idx, "model_idx": rep["model_idx"]})
+            if idx is not None and rep["spec_idx"] != idx:
+                ck.fail("C11|ranked-not-front-by-front|non_dominated_set_ranked",
+                        "result is not the first req indices of the successive Pareto fronts", case,
+                        {"impl_idx": idx, "fronts_prefix": rep["spec_idx"]})
 
 
 def replay(ck, case):
